@@ -7,7 +7,18 @@ generated model against the driver's expressions (symbolic, exact points) and th
 compared numerically (jacobian, grad, diff_jacobian, grad_jacobian, grad_grad - row i*nP+j, column k = d2f_i/dtheta_j dtheta_k -,
 transitionJacobian/Mean/Var).  Direct oracle (no Lean, no sympy): 50-digit central finite differences of the
 harness interpreter's own right-hand side / rate vector.
+
+History / input-form / second-instance probes as in C01 (fixed by the case JSON, judged by the same finite-difference
+oracle; the modelled derivative objects are functions of the definition, the parameter values and (x, t) only): every
+array returned by the nine evaluators is KEPT and judged again after all later calls (3 points incl. an integer-valued
+one with zero states, parameter re-assignment and restoration at a fixed (x, t), second instance, deep copy), the caller
+then overwrites the kept arrays and evaluates again; x / t / parameters in varied container and dtype forms (an argument
+that was written to is tagged `side-effect:*`, not judged); a second live instance with the same names (parameter declaration permuted, state declaration reversed,
+derived parameter redefined, last event added incrementally with the first instance evaluating in between) evaluated
+alternately with the first; copy.deepcopy as a third instance; the solver-facing twins jacobian_T / grad_T /
+diff_jacobian_T / grad_jacobianT / ode_T.
 """
+import copy
 import json
 import random
 from fractions import Fraction
@@ -16,7 +27,10 @@ import numpy as np
 
 from .. import exprs as E
 from .. import gen
-from .common import build_both, compare_errors, fl, mpf, mpf_s, net_oracle, sym_vs_lean, vec_close
+from .. import pymodel
+from .common import BIG_FORMS
+from .common import (Kept, as_params, as_t, as_x, build_both, compare_errors, dtype_probe, fd_jacobian, fl, freeze, mpf, mpf_s, net_oracle,
+                     spec_oracle, sym_vs_lean, vec_close)
 
 PROP = "C03"
 LEAN = {"module": "Pygom.Props.C03",
@@ -29,7 +43,9 @@ LEAN = {"module": "Pygom.Props.C03",
         "extra_modules": ["Pygom.Lemmas.Deriv"]}
 BUDGET = {"quick": {"models": 120}, "thorough": {"models": 2500}}
 RULE = ("random model definitions as in C01 (events routed through the event= keyword so that event order is the declared order); "
-        "2 exact points each, away from singularities; non-trivial = some Jacobian entry and some gradient entry non-zero")
+        "3 exact points each (one integer valued with zero states) in varied container / dtype forms, away from singularities, results "
+        "kept and re-judged after the later calls, parameter re-assignment / restoration, a permuted second instance built in stages and "
+        "evaluated alternately, a deep copy, the _T twins; non-trivial = some Jacobian entry and some gradient entry non-zero")
 ASSUMPTIONS = ["sympy.diff / Matrix.jacobian are translation-validated per model against the verified Expr.diff, not proved",
                "finite-difference oracle: central differences in 50-digit arithmetic (h=1e-15 first order, 1e-10 second order)"]
 TRUSTED = ["harness generator, printer and interpreter", "Lean driver JSON codec"]
@@ -38,13 +54,24 @@ H1 = mpf("1e-15")
 H2 = mpf("1e-10")
 
 
+N_POINTS = 3          # two rational points and one integer-valued point with zero states (handed over as ints / integer arrays)
+
+
 def make_cases(rng, tier, budget):
+    from .common import gen_forms
     cases = []
     for i in range(budget["models"]):
         r = random.Random(rng.getrandbits(64))
         spec, meta = gen.gen_model(r, min_events=1, routes=("event", "event_eq", "event_bare"))
-        pts = [gen.rand_point(r, meta) for _ in range(2)]
-        cases.append({"spec": spec, "meta": meta, "points": [{k: str(v) for k, v in p.items()} for p in pts]})
+        pts = [gen.rand_point(r, meta) for _ in range(N_POINTS - 1)] + [gen.rand_point(r, meta, integer=True, zeros=True)]
+        big = gen.rand_point(r, meta, integer=True, big=True)
+        perm = list(range(len(meta["params"])))
+        r.shuffle(perm)
+        probe = {"big": {"point": {k: str(v) for k, v in big.items()}, "x": r.choice(BIG_FORMS)},
+                 "forms": gen_forms(r, pts, meta["states"]), "reassign_form": r.choice(["list", "tuple", "ndarray", "dict_name", "pairs"]),
+                 "sibling": {"state_rev": r.random() < 0.4, "param_perm": perm, "derived_bump": r.random() < 0.5,
+                             "last_event_incremental": r.random() < 0.6}}
+        cases.append({"spec": spec, "meta": meta, "points": [{k: str(v) for k, v in p.items()} for p in pts], "probe": probe})
     return cases
 
 
@@ -80,115 +107,404 @@ def mat_close(A, B, rel=1e-7, abs_=1e-8):
     return A.shape == B.shape and np.all(np.abs(A - B) <= abs_ + rel * np.maximum(np.abs(A), np.abs(B)))
 
 
-def run_case(case):
-    spec, meta = case["spec"], case["meta"]
-    tags, mism, viol = [], [], []
-    lr, model, perr, stage = build_both(spec, derivs=True)
-    mism += compare_errors(lr, perr, stage)
-    if perr is not None or lr.get("err") is not None:
-        viol.append({"what": "well-formed model rejected: %s" % perr, "signature": "reject:%s" % perr, "detail": ""})
-        return {"nontrivial": False, "mismatches": mism, "violations": viol, "tags": ["rejected"]}
-    states = [str(s) for s in model.state_list]; params = [str(p) for p in model.param_list]
-    nS, nP, nE = len(states), len(params), len(lr["rates"])
-    tags += ["nS=%d" % nS, "nP=%d" % nP, "nE=%d" % nE, "square" if nS == nP else "asymmetric"]
-    for k in set(meta["kinds"]): tags.append("rate:" + k)
-    if not hasattr(model, "get_grad_grad_eqn") or not hasattr(model, "grad_grad"):
-        # the modelled source has the evaluator (Model.gradGradEqn, since the repair of C20-hessian-mixed-terms)
-        mism.append({"what": "evaluator missing: grad_grad", "detail": "the model has no get_grad_grad_eqn / grad_grad"})
-        return {"nontrivial": False, "mismatches": mism, "violations": viol, "tags": tags + ["evaluator-missing:grad_grad"]}
-    try:
-        J_s = model.get_jacobian_eqn(); G_s = model.get_grad_eqn(); GG_s = model.get_grad_grad_eqn()
-        DJ_s = model.get_diff_jacobian_eqn(); GJ_s = model.get_grad_jacobian_eqn()
-        TJ_s = model.get_TransitionJacobian(); TM_s = model.get_TransitionMean(); TV_s = model.get_TransitionVar()
-    except Exception as exc:
-        viol.append({"what": "symbolic derivative raised %s: %s" % (type(exc).__name__, str(exc)[:200]),
-                     "signature": "symbolic-raise:%s" % type(exc).__name__, "detail": ""})
-        return {"nontrivial": False, "mismatches": mism, "violations": viol, "tags": tags}
-    flat = lambda M: [M[i, j] for i in range(M.rows) for j in range(M.cols)]
-    lflat = lambda L: [e for row in L for e in row]
-    nzJ = nzG = nzGG = False
-    for pt in case["points"]:
-        env = {k: Fraction(v) for k, v in pt.items()}
-        # symbolic: sympy's derivatives against the verified differentiator
-        for name, S, L in (("get_jacobian_eqn", flat(J_s), lflat(lr["jac"])), ("get_grad_eqn", flat(G_s), lflat(lr["grad"])),
-                           ("get_diff_jacobian_eqn", flat(DJ_s), lflat(lr["djac"])),
-                           ("get_grad_jacobian_eqn", flat(GJ_s), lflat(lr["gjac"])),
-                           ("get_grad_grad_eqn", flat(GG_s), lflat(lr["ggrad"])),
-                           ("get_TransitionJacobian", flat(TJ_s), lflat(lr["tjac"])),
-                           ("get_TransitionMean", list(TM_s), lr["tmean"]), ("get_TransitionVar", list(TV_s), lr["tvar"])):
-            sym_vs_lean(S, L, env, name, mism, tags)
-        x = fl(env, states); th = fl(env, params); t = float(env["t"])
+EVALS = ("jacobian", "grad", "diff_jacobian", "grad_jacobian", "grad_grad", "transitionJacobian", "transitionMean", "transitionVar")
+TOL = {"jacobian": 1e-7, "grad": 1e-7, "diff_jacobian": 1e-6, "grad_jacobian": 1e-6, "grad_grad": 1e-6, "transitionJacobian": 1e-7,
+       "transitionMean": 1e-7, "transitionVar": 1e-7, "ode": 1e-9}
+HISTORY_LABELS = ("reassigned", "restored", "after-sibling", "after-copy", "copy-after-original", "after-caller-wrote-into-results")
+
+
+def oracle_all(meta, spec, env, states, params, nE):
+    """finite differences of the harness's own right-hand side / rate vector (no Lean, no sympy); may raise E.Undefined"""
+    nS, nP = len(states), len(params)
+    fo = lambda e_: f_oracle(meta, spec, e_)[0]
+    ao = lambda e_: f_oracle(meta, spec, e_)[2]
+    O = {}
+    O["jacobian"] = np.array([[float(v) for v in d1(fo, env, s)] for s in states]).T.reshape(nS, nS)      # [i][j] = d f_i / d x_j
+    O["grad"] = np.array([[float(v) for v in d1(fo, env, p)] for p in params]).T.reshape(nS, nP)
+    DJ_o = np.zeros((nS * nS, nS)); GJ_o = np.zeros((nS * nP, nS)); GG_o = np.zeros((nS * nP, nP))
+    for j, pj in enumerate(params):
+        for k, pk in enumerate(params):
+            dd = d2(fo, env, pj, pk)
+            for i in range(nS):
+                GG_o[i * nP + j, k] = float(dd[i])
+    for i, si in enumerate(states):
+        for j, sj in enumerate(states):
+            dd = d2(fo, env, si, sj)
+            for e_ in range(nS):
+                DJ_o[e_ * nS + i, j] = float(dd[e_])
+    for k, pk in enumerate(params):
+        for j, sj in enumerate(states):
+            dd = d2(fo, env, pk, sj)
+            for i in range(nS):
+                GJ_o[k * nS + i, j] = float(dd[i])
+    O["diff_jacobian"], O["grad_jacobian"], O["grad_grad"] = DJ_o, GJ_o, GG_o
+    f_o, V_o, a_o = f_oracle(meta, spec, env)
+    dA = np.array([[float(v) for v in d1(ao, env, s)] for s in states]).T.reshape(nE, nS)   # [i][k] = d a_i / d x_k
+    Vm = np.array([[float(v) for v in col] for col in V_o]).T.reshape(nS, nE)                # [k][j]
+    TJ_o = dA.dot(Vm)
+    a_f = np.array([float(v) for v in a_o])
+    O["transitionJacobian"] = TJ_o
+    O["transitionMean"] = TJ_o.dot(a_f); O["transitionVar"] = (TJ_o ** 2).dot(a_f)
+    O["ode"] = np.array([float(v) for v in f_o])
+    return O
+
+
+class Session(object):
+    """one live model instance: its Lean response, its finite-difference oracle, and every array it handed out.
+    `step` judges private copies of the results at once; `finish` judges the KEPT arrays after all later calls."""
+
+    def __init__(self, case, spec, meta, who="", partner=None, touch_env=None):
+        self.case, self.spec, self.meta, self.who = case, spec, meta, who
+        self.tags, self.mism, self.viol = [], [], []
+        self.kept = Kept()
+        self.steps = []
+        self.cache = {}
+        self.nz = {"J": False, "G": False, "GG": False}
+        self.dead = False
+        self.model = None
+        self.cur = {}
+        n_then = len(spec.get("then", []))
+        staged = partner is not None and n_then > 0 and all(o["op"] in pymodel.SETTER for o in spec["then"])
+        if not staged:
+            self.lr, self.model, self.perr, self.stage = build_both(spec, derivs=True)
+            return
+        # staged construction (see C01): constructor keywords, every evaluator compiled, then the incremental operations
+        # one at a time with ANOTHER live instance evaluating before this one does
+        from .common import lean_assemble
+        self.lr = lean_assemble(spec, True)
+        self.perr, self.stage = None, None
+        self.tags.append("staged_build")
         try:
-            model.parameters = th
-            J_n = np.asarray(model.jacobian(x, t), float).reshape(nS, nS)
-            G_n = np.asarray(model.grad(x, t), float).reshape(nS, nP)
-            DJ_n = np.asarray(model.diff_jacobian(x, t), float).reshape(nS * nS, nS)
-            GJ_n = np.asarray(model.grad_jacobian(x, t), float).reshape(nS * nP, nS)
-            GG_n = np.asarray(model.grad_grad(x, t), float)
-            if GG_n.shape != (nS * nP, nP):
-                viol.append({"what": "grad_grad(x,t) has shape %s, expected %s" % (GG_n.shape, (nS * nP, nP)),
-                             "signature": "grad_grad:shape" + (":nS=1" if nS == 1 else "") + (":nP=1" if nP == 1 else ""), "detail": json.dumps(pt)})
-                break
-            TJ_n = np.asarray(model.transitionJacobian(x, t), float).reshape(nE, nE)
-            TM_n = np.asarray(model.transitionMean(x, t), float).ravel()
-            TV_n = np.asarray(model.transitionVar(x, t), float).ravel()
+            self.model = pymodel.build(spec, upto=0)
+            self.touch(touch_env, 0)
+            for k in range(n_then):
+                pymodel.apply_then(self.model, spec["then"][k])
+                partner.touch(touch_env, None)
+                self.touch(touch_env, k + 1)
+            for g in ("get_ode_eqn", "get_StateChangeMatrix", "get_EventRateVector", "get_pureOdeVector"):
+                getattr(self.model, g)()
         except Exception as exc:
-            viol.append({"what": "derivative evaluator raised %s: %s" % (type(exc).__name__, str(exc)[:200]),
-                         "signature": "evaluator-raise:%s" % type(exc).__name__, "detail": json.dumps(pt)})
-            break
+            self.perr, self.stage = pymodel.err_enum(exc), "build"
+            self.model = None
+
+    def touch(self, env, upto):
+        """call every evaluator once (so that it is compiled for the model as it is now); jacobian and ode are judged
+        against the spec read up to operation `upto` (None = the complete model)"""
+        if self.model is None or env is None:
+            return
+        m = self.model
+        states = [str(s) for s in m.state_list]; params = [str(p) for p in m.param_list]
+        x = fl(env, states); t = float(env["t"])
         try:
-            # model (Lean expressions, harness interpreter)
-            Lv = lambda L: [[float(E.ev(e, env)) for e in row] for row in L]
-            J_l, G_l, DJ_l, GJ_l, TJ_l = Lv(lr["jac"]), Lv(lr["grad"]), Lv(lr["djac"]), Lv(lr["gjac"]), Lv(lr["tjac"])
-            GG_l = Lv(lr["ggrad"])
-            TM_l = [float(E.ev(e, env)) for e in lr["tmean"]]; TV_l = [float(E.ev(e, env)) for e in lr["tvar"]]
-            # oracle: finite differences of the harness's own right-hand side
-            fo = lambda e_: f_oracle(meta, spec, e_)[0]
-            ao = lambda e_: f_oracle(meta, spec, e_)[2]
-            J_o = np.array([[float(v) for v in d1(fo, env, s)] for s in states]).T            # [i][j] = d f_i / d x_j
-            G_o = np.array([[float(v) for v in d1(fo, env, p)] for p in params]).T.reshape(nS, nP)
-            DJ_o = np.zeros((nS * nS, nS)); GJ_o = np.zeros((nS * nP, nS)); GG_o = np.zeros((nS * nP, nP))
-            for j, pj in enumerate(params):
-                for k, pk in enumerate(params):
-                    dd = d2(fo, env, pj, pk)
-                    for i in range(nS):
-                        GG_o[i * nP + j, k] = float(dd[i])
-            for i, si in enumerate(states):
-                for j, sj in enumerate(states):
-                    dd = d2(fo, env, si, sj)
-                    for e_ in range(nS):
-                        DJ_o[e_ * nS + i, j] = float(dd[e_])
-            for k, pk in enumerate(params):
-                for j, sj in enumerate(states):
-                    dd = d2(fo, env, pk, sj)
-                    for i in range(nS):
-                        GJ_o[k * nS + i, j] = float(dd[i])
-            _, V_o, a_o = f_oracle(meta, spec, env)
-            dA = np.array([[float(v) for v in d1(ao, env, s)] for s in states]).T.reshape(nE, nS)   # [i][k] = d a_i / d x_k
-            Vm = np.array([[float(v) for v in col] for col in V_o]).T.reshape(nS, nE)                # [k][j]
-            TJ_o = dA.dot(Vm)
-            a_f = np.array([float(v) for v in a_o])
-            TM_o = TJ_o.dot(a_f); TV_o = (TJ_o ** 2).dot(a_f)
+            m.parameters = fl(env, params)
+            self.cur = {p: env[p] for p in params}
+        except Exception:
+            self.tags.append("touch:parameters-not-settable")
+            return
+        got = {}
+        for name in EVALS + ("ode",):
+            try:
+                got[name] = np.array(getattr(m, name)(x, t), dtype=float)
+            except Exception:
+                self.tags.append("touch:%s-raised" % name)
+        if "ode" not in got or "jacobian" not in got:
+            return
+        try:
+            fo = (lambda e_: net_oracle(self.meta, self.spec, e_)[0]) if upto is None else (lambda e_: spec_oracle(self.spec, states, e_, upto=upto)[0])
+            f_o = fo(env)
+            J_o = np.array([[float(v) for v in row] for row in fd_jacobian(fo, env, states)]).reshape(len(states), len(states))
+        except E.Undefined:
+            return
+        stage = "as built so far (constructor + %d incremental operations)" % upto if upto is not None else "after another instance was extended"
+        if not vec_close(got["ode"].ravel(), f_o):
+            self.viol.append({"what": self.who + "ode(x,t) of the model %s is not the described right-hand side" % stage, "signature": "staged:ode",
+                              "detail": "ode=%s expected=%s" % (got["ode"].ravel().tolist(), [mpf_s(v) for v in f_o])})
+        elif not mat_close(got["jacobian"].reshape(J_o.shape), J_o, rel=1e-7, abs_=1e-7):
+            self.viol.append({"what": self.who + "jacobian(x,t) of the model %s is not the derivative (finite-difference oracle)" % stage,
+                              "signature": "staged:jacobian:not-derivative",
+                              "detail": "got %s expected %s" % (got["jacobian"].tolist(), J_o.tolist())})
+
+    def open(self):
+        lr, model, spec, meta = self.lr, self.model, self.spec, self.meta
+        tags, mism, viol = self.tags, self.mism, self.viol
+        mism += compare_errors(lr, self.perr, self.stage)
+        if self.perr is not None or lr.get("err") is not None:
+            viol.append({"what": self.who + "well-formed model rejected: %s" % self.perr, "signature": "reject:%s" % self.perr, "detail": ""})
+            tags.append("rejected")
+            self.dead = True
+            return False
+        self.states = states = [str(s) for s in model.state_list]; self.params = params = [str(p) for p in model.param_list]
+        if states != meta["states"] or params != meta["params"]:
+            viol.append({"what": self.who + "declared names / order not kept: %s %s, declared %s %s" % (states, params, meta["states"], meta["params"]),
+                         "signature": "declared-names", "detail": ""})
+            self.dead = True
+            return False
+        self.nS, self.nP, self.nE = nS, nP, nE = len(states), len(params), len(lr["rates"])
+        tags += ["nS=%d" % nS, "nP=%d" % nP, "nE=%d" % nE, "square" if nS == nP else "asymmetric"]
+        for k in set(meta["kinds"]): tags.append("rate:" + k)
+        if not hasattr(model, "get_grad_grad_eqn") or not hasattr(model, "grad_grad"):
+            # the modelled source has the evaluator (Model.gradGradEqn, since the repair of C20-hessian-mixed-terms)
+            mism.append({"what": "evaluator missing: grad_grad", "detail": "the model has no get_grad_grad_eqn / grad_grad"})
+            tags.append("evaluator-missing:grad_grad")
+            self.dead = True
+            return False
+        try:
+            J_s = model.get_jacobian_eqn(); G_s = model.get_grad_eqn(); GG_s = model.get_grad_grad_eqn()
+            DJ_s = model.get_diff_jacobian_eqn(); GJ_s = model.get_grad_jacobian_eqn()
+            TJ_s = model.get_TransitionJacobian(); TM_s = model.get_TransitionMean(); TV_s = model.get_TransitionVar()
+        except Exception as exc:
+            viol.append({"what": self.who + "symbolic derivative raised %s: %s" % (type(exc).__name__, str(exc)[:200]),
+                         "signature": "symbolic-raise:%s" % type(exc).__name__, "detail": ""})
+            self.dead = True
+            return False
+        flat = lambda M: [M[i, j] for i in range(M.rows) for j in range(M.cols)]
+        lflat = lambda L: [e for row in L for e in row]
+        self.sym = (("get_jacobian_eqn", flat(J_s), lflat(lr["jac"])), ("get_grad_eqn", flat(G_s), lflat(lr["grad"])),
+                    ("get_diff_jacobian_eqn", flat(DJ_s), lflat(lr["djac"])),
+                    ("get_grad_jacobian_eqn", flat(GJ_s), lflat(lr["gjac"])),
+                    ("get_grad_grad_eqn", flat(GG_s), lflat(lr["ggrad"])),
+                    ("get_TransitionJacobian", flat(TJ_s), lflat(lr["tjac"])),
+                    ("get_TransitionMean", list(TM_s), lr["tmean"]), ("get_TransitionVar", list(TV_s), lr["tvar"]))
+        self.shape = {"jacobian": (nS, nS), "grad": (nS, nP), "diff_jacobian": (nS * nS, nS), "grad_jacobian": (nS * nP, nS),
+                      "grad_grad": (nS * nP, nP), "transitionJacobian": (nE, nE), "transitionMean": (nE,), "transitionVar": (nE,), "ode": (nS,)}
+        return True
+
+    def step(self, env, form, label, symbolic=False, set_params=True):
+        if self.dead:
+            return False
+        lr, model, meta, spec = self.lr, self.model, self.meta, self.spec
+        mism, viol, tags = self.mism, self.viol, self.tags
+        n0 = len(mism) + len(viol)
+        pt = {k: str(v) for k, v in env.items()}
+        if symbolic:
+            # sympy's derivatives against the verified differentiator
+            for name, S, L in self.sym:
+                sym_vs_lean(S, L, env, name, mism, tags)
+        x = as_x(env, self.states, form["x"]); t = as_t(env, form["t"])
+        tags.append("x:" + form["x"]); tags.append("t:" + form["t"])
+        first_row = len(self.kept.rows)
+        vals = {}
+        try:
+            if set_params:
+                th = as_params(env, self.params, form["p"])
+                fth = freeze(th)
+                model.parameters = th
+                self.cur = {p: env[p] for p in self.params}
+                tags.append("p:" + form["p"])
+                if freeze(th) != fth:
+                    # a pure side effect (the values judged below decide): tagged, not a violation of this property
+                    tags.append("side-effect:parameters-object-modified:" + form["p"])
+            for name in EVALS + ("ode",):
+                v = self.kept.call(model, name, x, t, label)
+                if name == "grad_grad" and v.shape != self.shape[name]:
+                    viol.append({"what": self.who + "grad_grad(x,t) has shape %s, expected %s" % (v.shape, self.shape[name]),
+                                 "signature": "grad_grad:shape" + (":nS=1" if self.nS == 1 else "") + (":nP=1" if self.nP == 1 else ""), "detail": json.dumps(pt)})
+                    return False
+                vals[name] = v.reshape(self.shape[name])
+        except Exception as exc:
+            viol.append({"what": self.who + "derivative evaluator raised %s: %s" % (type(exc).__name__, str(exc)[:200]),
+                         "signature": "evaluator-raise:%s:x=%s,t=%s" % (type(exc).__name__, form["x"], form["t"]), "detail": json.dumps(pt)})
+            return False
+        key = json.dumps(pt, sort_keys=True)
+        try:
+            if key not in self.cache:
+                Lv = lambda L: np.array([[float(E.ev(e, env)) for e in row] for row in L], float)
+                Ln = {"jacobian": Lv(lr["jac"]), "grad": Lv(lr["grad"]), "diff_jacobian": Lv(lr["djac"]), "grad_jacobian": Lv(lr["gjac"]),
+                      "grad_grad": Lv(lr["ggrad"]), "transitionJacobian": Lv(lr["tjac"]),
+                      "transitionMean": np.array([float(E.ev(e, env)) for e in lr["tmean"]]), "transitionVar": np.array([float(E.ev(e, env)) for e in lr["tvar"]]),
+                      "ode": np.array([float(E.ev(e, env)) for e in lr["ode"]])}
+                self.cache[key] = (Ln, oracle_all(meta, spec, env, self.states, self.params, self.nE))
+            Ln, O = self.cache[key]
         except E.Undefined:
             tags.append("undefined_point")
-            continue
-        nzJ = nzJ or bool(np.any(np.abs(J_o) > 1e-9)); nzG = nzG or bool(np.any(np.abs(G_o) > 1e-9))
-        nzGG = nzGG or bool(np.any(np.abs(GG_o) > 1e-9))
-        for name, N, L in (("jacobian", J_n, J_l), ("grad", G_n, G_l), ("diff_jacobian", DJ_n, DJ_l), ("grad_jacobian", GJ_n, GJ_l),
-                           ("grad_grad", GG_n, GG_l),
-                           ("transitionJacobian", TJ_n, TJ_l), ("transitionMean", TM_n, TM_l), ("transitionVar", TV_n, TV_l)):
-            if not mat_close(N, np.asarray(L, float).reshape(np.asarray(N).shape), rel=1e-9, abs_=1e-10):
-                mism.append({"what": name + "(x,t)", "detail": "python %s lean %s at %s" % (np.asarray(N).tolist(), L, pt)})
-        for name, N, O, tol in (("jacobian", J_n, J_o, 1e-7), ("grad", G_n, G_o, 1e-7), ("diff_jacobian", DJ_n, DJ_o, 1e-6),
-                                ("grad_jacobian", GJ_n, GJ_o, 1e-6), ("grad_grad", GG_n, GG_o, 1e-6), ("transitionJacobian", TJ_n, TJ_o, 1e-7),
-                                ("transitionMean", TM_n, TM_o, 1e-7), ("transitionVar", TV_n, TV_o, 1e-7)):
-            if not mat_close(N, O, rel=tol, abs_=tol):
-                viol.append({"what": "%s(x,t) is not the derivative / definition (finite-difference oracle)" % name,
-                             "signature": "%s:not-derivative" % name,
-                             "detail": "got %s expected %s at %s" % (np.asarray(N).tolist(), np.asarray(O).tolist(), pt)})
-        if mism or viol:
-            break
-    if nzGG:
-        tags.append("grad_grad:non-zero")
-    return {"nontrivial": bool(nzJ and nzG), "mismatches": mism, "violations": viol, "tags": tags,
-            "sample": {"spec": spec, "point": case["points"][0]}}
+            return True
+        self.nz["J"] = self.nz["J"] or bool(np.any(np.abs(O["jacobian"]) > 1e-9)); self.nz["G"] = self.nz["G"] or bool(np.any(np.abs(O["grad"]) > 1e-9))
+        self.nz["GG"] = self.nz["GG"] or bool(np.any(np.abs(O["grad_grad"]) > 1e-9))
+        st = {"label": label, "pt": pt, "lean": Ln, "oracle": O, "first_row": first_row}
+        self.steps.append(st)
+        nv = len(viol)
+        self.judge(st, vals, "")
+        if len(viol) > nv and (form["x"].startswith("ndarray_int") or form["t"] == "np.int64"):
+            # wrong for a numpy integer dtype, right for the same point as Python floats?  then the input class is the dtype
+            xf, tf = fl(env, self.states), float(env["t"])
+            for v in viol[nv:]:
+                name = v.get("evaluator")
+                try:
+                    again = np.array(getattr(model, name)(xf, tf), float).reshape(self.shape[name])
+                except Exception:
+                    continue
+                if mat_close(again, O[name].reshape(again.shape), rel=TOL[name], abs_=TOL[name]):
+                    v["signature"] = "integer-dtype-state:%s" % name
+                    v["what"] += " - for x as %s / t as %s only (right for the same point as Python floats: fixed-width integer wrap-around)" % (form["x"], form["t"])
+        return len(mism) + len(viol) == n0
+
+    def keep_params(self, env):
+        """(x, t) of `env` with the parameter values this instance currently holds"""
+        e = dict(env); e.update(self.cur)
+        return e
+
+    def clone(self):
+        """copy.deepcopy of the configured, already evaluated model as one more live instance"""
+        C = object.__new__(Session)
+        C.__dict__.update(self.__dict__)
+        C.tags, C.mism, C.viol, C.kept, C.steps = [], [], [], Kept(), []
+        C.nz = dict(self.nz)
+        C.who = "copy.deepcopy of the model: "
+        try:
+            C.model = copy.deepcopy(self.model)
+        except Exception as exc:
+            self.tags.append("deepcopy-raised:%s" % type(exc).__name__)
+            return None
+        C.cur = dict(self.cur)
+        return C
+
+    def twins(self, env, label):
+        """the solver-facing twins f_T(t, x) at a point whose oracle is known"""
+        if self.dead or self.mism or self.viol:
+            return
+        key = json.dumps({k: str(v) for k, v in env.items()}, sort_keys=True)
+        if key not in self.cache:
+            return
+        O = self.cache[key][1]
+        x = fl(env, self.states); t = float(env["t"])
+        for twin, name in (("ode_T", "ode"), ("jacobian_T", "jacobian"), ("grad_T", "grad"), ("diff_jacobian_T", "diff_jacobian"),
+                           ("grad_jacobianT", "grad_jacobian")):
+            try:
+                got = np.array(getattr(self.model, twin)(t, x), float).reshape(self.shape[name])
+            except Exception as exc:
+                self.viol.append({"what": self.who + "%s raised %s: %s" % (twin, type(exc).__name__, str(exc)[:200]),
+                                  "signature": "evaluator-raise:%s:%s" % (twin, type(exc).__name__), "detail": ""})
+                return
+            if not mat_close(got, O[name].reshape(got.shape), rel=TOL[name], abs_=TOL[name]):
+                self.viol.append({"what": self.who + "[%s] %s(t,x) is not the derivative / definition (finite-difference oracle)" % (label, twin),
+                                  "signature": "%s:not-derivative" % twin, "detail": "got %s expected %s" % (got.tolist(), O[name].tolist())})
+        self.tags.append("twins")
+
+    def dtype_probe(self, env, xform):
+        if self.dead or self.mism or self.viol:
+            return
+        v, tg = dtype_probe(self.model, EVALS + ("ode",), self.states, self.params, env, xform, self.who)
+        self.viol += v; self.tags += tg
+        self.cur = {p: env[p] for p in self.params}
+
+    def judge(self, st, vals, kind):
+        label, pt = st["label"], st["pt"]
+        pre = self.who + ("[%s] " % label) + ("KEPT result, looked at after the later calls: " if kind else "")
+        for name in EVALS + ("ode",):
+            N = vals[name]
+            O = st["oracle"][name].reshape(N.shape)
+            if not kind:
+                L = st["lean"][name].reshape(N.shape)
+                if not mat_close(N, L, rel=1e-9, abs_=1e-10):
+                    self.mism.append({"what": name + "(x,t)", "detail": "python %s lean %s at %s" % (N.tolist(), L.tolist(), pt)})
+            if not mat_close(N, O, rel=TOL[name], abs_=TOL[name]):
+                sgn = ("kept:" if kind else ("history:" if label in HISTORY_LABELS else "")) + ("%s:not-derivative" % name if name != "ode" else "ode:not-rhs")
+                self.viol.append({"what": pre + "%s(x,t) is not the derivative / definition (finite-difference oracle)" % name,
+                                  "signature": sgn, "evaluator": name, "detail": "got %s expected %s at %s" % (N.tolist(), O.tolist(), pt)})
+
+    def finish(self):
+        if self.dead or self.mism or self.viol:
+            return
+        for label, name in self.kept.input_changed:
+            # writing into the caller's state vector / time is a side effect outside this property: tagged only
+            self.tags.append("side-effect:input-modified:%s" % name)
+        changed = self.kept.changed()
+        if changed:
+            self.tags.append("kept_result_changed")
+        n_ev = len(EVALS) + 1
+        for st in self.steps:
+            rows = {r["name"]: r for r in self.kept.rows[st["first_row"]:st["first_row"] + n_ev]}
+            raw = {name: np.asarray(rows[name]["raw"], float).reshape(self.shape[name]) for name in EVALS + ("ode",)}
+            self.judge(st, raw, "kept")
+            if self.viol:
+                break
+        if changed and not self.viol:
+            # a kept array was written to by a later call but every kept value still satisfies the oracle: a side effect
+            # (a view of internal state) without a wrong value - tagged, not judged
+            self.tags.append("side-effect:kept-array-rewritten-with-right-values")
+        self.tags.append("kept_judged:%d" % len(self.steps))
+
+    def after_scribble(self, env, form, label):
+        if self.dead or self.mism or self.viol:
+            return
+        n = self.kept.scribble()
+        self.tags.append("scribbled" if n else "nothing_to_scribble")
+        self.kept = Kept()
+        self.step(env, form, label)
+
+
+def pref(prefix, signature):
+    """which instance failed is part of the signature, except where the input class alone names the failure"""
+    return signature if signature.startswith("integer-dtype-state:") else prefix + signature
+
+
+def run_case(case):
+    spec, meta = case["spec"], case["meta"]
+    pts = [{k: Fraction(v) for k, v in p.items()} for p in case["points"]]
+    probe = case.get("probe") or {}
+    forms = probe.get("forms") or [{"x": "list", "t": "float", "p": "list"}] * len(pts)
+    A = Session(case, spec, meta)
+    B = None
+    ok = A.open()
+    if ok:
+        for k, env in enumerate(pts):
+            ok = A.step(env, forms[k], "point%d" % k, symbolic=True)
+            if not ok:
+                break
+    if ok and probe.get("big"):
+        A.dtype_probe({k: Fraction(v) for k, v in probe["big"]["point"].items()}, probe["big"]["x"])
+        ok = not (A.mism or A.viol)
+    if ok and probe and len(pts) >= 2:
+        # history on one instance: (x, t) of point 0 with the parameter values of point 1, then the first values again
+        env_r = dict(pts[0]); env_r.update({p: pts[1][p] for p in A.params})
+        ok = A.step(env_r, dict(forms[0], p=probe.get("reassign_form", "list")), "reassigned") and \
+            A.step(pts[0], dict(forms[0], p=forms[1]["p"]), "restored")
+    if ok and probe.get("sibling"):
+        # a second live instance under the same names: parameter / state declaration permuted, derived parameter
+        # redefined, last event entered incrementally with the first instance evaluating in between
+        sb = probe["sibling"]
+        s2, m2, changed = gen.sibling_spec(spec, meta, state_rev=sb.get("state_rev", False), param_perm=sb.get("param_perm"),
+                                           derived_bump=sb.get("derived_bump", False), last_event_incremental=sb.get("last_event_incremental", False))
+        if changed:
+            A.tags.append("sibling_checked")
+            for c in changed:
+                A.tags.append("sibling:" + c)
+            B = Session(case, s2, m2, who="second model with the same names: ", partner=A, touch_env=pts[0])
+            if B.open():
+                okB = B.step(pts[0], forms[0], "point0", symbolic=True)
+                # the first instance again, WITHOUT touching its parameters (they are still those of point 0)
+                okA = A.step(A.keep_params(pts[1]), forms[1], "after-sibling", set_params=False) if okB else False
+                if okA and okB:
+                    B.step(pts[1], forms[1], "point1") and A.step(pts[1], forms[1], "after-sibling")
+    C = None
+    if ok and probe and not (A.mism or A.viol) and (B is None or not (B.mism or B.viol)):
+        # the solver-facing twins, and a deep copy of the evaluated model as one more live instance: the copy gets other
+        # parameter values, the original is evaluated again without being touched, and the other way round
+        A.twins(pts[1] if A.cur == {p: pts[1][p] for p in A.params} else pts[0] if A.cur == {p: pts[0][p] for p in A.params} else {}, "twin")
+        C = A.clone()
+        if C is not None:
+            A.tags.append("deepcopy_checked")
+            C.step(pts[2 % len(pts)], forms[2 % len(pts)], "copy-point2") and A.step(A.keep_params(pts[0]), forms[0], "after-copy", set_params=False) \
+                and C.step(C.keep_params(pts[2 % len(pts)]), forms[0], "copy-after-original", set_params=False)
+    A.finish()
+    if B is not None and not B.dead:
+        B.finish()
+    if C is not None:
+        C.finish()
+        A.viol += [dict(v, signature=pref("deepcopy:", v.get("signature", ""))) for v in C.viol]
+        A.mism += [dict(m_, what="deepcopy:" + m_["what"]) for m_ in C.mism]
+    if not (A.mism or A.viol) and (B is None or not (B.mism or B.viol)):
+        A.after_scribble(pts[1 % len(pts)], forms[1 % len(pts)], "after-caller-wrote-into-results")
+    if A.nz["GG"]:
+        A.tags.append("grad_grad:non-zero")
+    r = {"nontrivial": bool(A.nz["J"] and A.nz["G"]), "mismatches": A.mism, "violations": A.viol, "tags": A.tags,
+         "sample": {"spec": spec, "point": case["points"][0]}}
+    if B is not None:
+        for v in B.viol:
+            r["violations"].append(dict(v, signature=pref("sibling:", v.get("signature", ""))))
+        for m_ in B.mism:
+            r["mismatches"].append(dict(m_, what="sibling:" + m_["what"]))
+        r["tags"] += [tg for tg in B.tags if tg.startswith(("staged", "touch", "kept", "x:", "t:", "p:", "rejected"))]
+        if B.viol or B.mism:
+            r["sample"] = {"first": spec, "second": B.spec}
+    return r
